@@ -124,7 +124,7 @@ func isMutex(t types.Type) bool { return ir.IsNamed(t, "sync", "Mutex") }
 
 // walletLockedField: the reservation map map[SiacoinOutputID]time.Time of the wallet.
 func walletLockedField(p *ir.Prog) *types.Var {
-	return p.FieldOr("wallet", "SingleAddressWallet", "locked", func(t types.Type) bool {
+	return p.FieldDeep("wallet", "SingleAddressWallet", "locked", func(t types.Type) bool { // (also when grouped into a reservations type)
 		mt, ok := t.Underlying().(*types.Map)
 		return ok && ir.IsNamed(mt.Key(), ir.PkgPath("types"), "SiacoinOutputID") && ir.IsNamed(mt.Elem(), "time", "Time")
 	})
